@@ -65,7 +65,7 @@ static Region mkregion(void)
     return r;
 }
 
-static Region regE, regS, slotreg[NSLOT];
+static Region regE, regS, regP, slotreg[NSLOT];
 static uint8_t* slotptr[NSLOT];
 static size_t slotlen[NSLOT];
 
@@ -193,6 +193,45 @@ static void uncanary(Region* reg, uint8_t* arena, size_t alen)
     for (size_t i = 0; i < alen; i++) arena[i] = canary_byte((size_t)(arena + i - reg->data));
 }
 
+/* ---- helpers for exec_ext.c ---- */
+static Region* cur_reg; static int cur_ro;
+uint8_t* ext_place(char place, long off, const uint8_t* bytes, size_t n)
+{
+    uint8_t* a;
+    if (place == 'S') { cur_reg = &regS; a = regS.data + off; }
+    else { cur_reg = &regE; a = regE.data + DATA_PAGES * PAGE - n; }
+    cur_ro = (place == 'R');
+    memcpy(a, bytes, n);
+    return a;
+}
+uint8_t* ext_source(const uint8_t* bytes, size_t n)   /* read-only source object, end flush against a guard page */
+{
+    uint8_t* a = regP.data + DATA_PAGES * PAGE - n;
+    mprotect(regP.data, DATA_PAGES * PAGE, PROT_READ | PROT_WRITE);
+    memcpy(a, bytes, n);
+    mprotect(regP.data, DATA_PAGES * PAGE, PROT_READ);
+    return a;
+}
+int ext_call(void (*fn)(void*), void* ctx, char* status, size_t slen, uint8_t* arena)
+{
+    strcpy(status, "ok");
+    if (cur_ro) mprotect(cur_reg->data, DATA_PAGES * PAGE, PROT_READ);
+    fault_sig = 0;
+    if (sigsetjmp(jb, 1) == 0) { in_call = 1; fn(ctx); in_call = 0; }
+    else { in_call = 0; snprintf(status, slen, "fault:%d:%ld", fault_sig, (long)((uint8_t*)fault_addr - arena)); }
+    if (cur_ro) mprotect(cur_reg->data, DATA_PAGES * PAGE, PROT_READ | PROT_WRITE);
+    return status[0] == 'o';
+}
+void ext_result(const char* status, uint64_t ret, long rc, uint64_t out, uint8_t* arena, size_t alen)
+{
+    printf("R %s ", status); put64(ret); printf(" %ld ", rc); put64(out); putchar(' ');
+    puthex(arena, alen);
+    int bad = check_canary(cur_reg, arena, alen);
+    printf(" %d\n", bad);
+    if (bad) fill_canary(cur_reg);
+    uncanary(cur_reg, arena, alen);
+}
+
 int main(void)
 {
     static char line[1 << 17];
@@ -200,7 +239,7 @@ int main(void)
     struct sigaction sa; memset(&sa, 0, sizeof sa);
     sa.sa_sigaction = on_fault; sa.sa_flags = SA_SIGINFO | SA_NODEFER;
     sigaction(SIGSEGV, &sa, NULL); sigaction(SIGBUS, &sa, NULL); sigaction(SIGFPE, &sa, NULL); sigaction(SIGILL, &sa, NULL);
-    regE = mkregion(); regS = mkregion(); fill_canary(&regE); fill_canary(&regS);
+    regE = mkregion(); regS = mkregion(); regP = mkregion(); fill_canary(&regE); fill_canary(&regS);
     setvbuf(stdout, NULL, _IOFBF, 1 << 16);
     while (fgets(line, sizeof line, stdin)) {
         char* tok[24]; int nt = 0;
